@@ -11,7 +11,7 @@ RULE = ('Hypothesis generates DAG case specs (1-10 nodes over types with max_par
         'dependencies of other requested nodes; max_workers; pre-cached subset; bust_cache; context; completion '
         'schedule) and runs each under the schedule-controlling in-process Runner, and sampled ones under the real '
         'serial / fork / spawn backends in processes with different hash seeds. Engine "two-runs": a second run_tasks call on the '
-        'SAME task objects (same Lab object or a new Lab on the same storage) with another nonce, with/without bust_cache. Engine "fork+gated+displays": 3-15 gated tasks inside run() at once with progress bars and task monitor shown under generated top_sort / top_n / top_format options. Engine "scale": 130-220 leaves gathered by one or two readers followed by a chain of dependents (serial, fork, controlled). Engine "twins": some nodes get a twin of an inheriting task type with exactly the same field '
+        'SAME task objects (same Lab object or a new Lab on the same storage) with another nonce, with/without bust_cache, optionally after uncache_tasks of a subset through the first Lab. Engine "fork+gated+displays": 3-15 gated tasks inside run() at once with progress bars and task monitor shown under generated top_sort / top_n / top_format options. Engine "scale": 130-220 leaves gathered by one or two readers followed by a chain of dependents (serial, fork, controlled). Engine "twins": some nodes get a twin of an inheriting task type with exactly the same field '
         'values (two tasks that differ only in their type), both read by one dependent. Oracle: returned keys == request '
         'list de-duplicated in order, each value == reference sequential evaluator. Non-trivial = closure of >= 3 '
         'nodes and at least one of: shared dependency, duplicate equal instance, dependency nested at container '
@@ -94,7 +94,7 @@ def check_two_runs(spec: dict) -> core.CaseResult:
         for f in oracles.c01_return_value(spec, obs.second, ex2):
             findings.append(core.Finding(f.signature.replace('C01:', 'C01:second-run:'), f.detail))
     f = specs.features(spec)
-    labels = [f'backend={spec["lab"]["backend"]}', f'second:same_lab={second.get("same_lab")}', f'second:bust={second.get("bust")}']
+    labels = [f'backend={spec["lab"]["backend"]}', f'second:same_lab={second.get("same_lab")}', f'second:bust={second.get("bust")}', f'second:uncached_between={bool(second.get("uncache"))}']
     return dagprop.result(obs, findings, f['n_closure'] >= 2, labels, prop='C01')
 
 
@@ -128,8 +128,10 @@ def run_job(rec: core.Recorder, job: dict, seed: int) -> None:
     if eng.startswith('two-runs:'):
         from hypothesis import strategies as st
         b = eng.split(':')[1]
-        strat = st.builds(lambda sp, same, bust: {**sp, 'second': {'same_lab': same, 'bust': bust}},
-                          specs.dag_spec(max_nodes=7, backends=(b,), dup_bias=(seed % 2 == 0), storages=('local', 'local', 'none')), st.booleans(), st.booleans())
+        strat = st.builds(lambda sp, same, bust, unc: {**sp, 'second': {'same_lab': same, 'bust': bust,
+                                                                      'uncache': sorted({i for i in unc if i < len(sp['nodes'])})}},
+                          specs.dag_spec(max_nodes=7, backends=(b,), dup_bias=(seed % 2 == 0), storages=('local', 'local', 'none', 'fsspec_local')), st.booleans(), st.booleans(),
+                          st.one_of(st.just([]), st.lists(st.integers(0, 6), max_size=4)))
         core.run_hypothesis(rec, eng, strat, check_two_runs, max_examples=job['n'], seed=seed, shrink=(b != 'fork' or rec.tier == 'thorough'))
         return
     if eng == 'fork+gated+displays':
